@@ -50,6 +50,12 @@ Lemma sat_intro : forall o a l, In a l -> sat1 o a = true -> sat o l = true.
 Proof. intros o a l Hin Hs. unfold sat. apply existsb_exists. exists a. split; assumption. Qed.
 
 (* an error outcome meets an AErr allowance *)
+Lemma calls_present : forall cs : list call, forallb (fun a => existsb (call_eqb a) cs) (filter is_abort cs) = true.
+Proof.
+  intros cs. apply forallb_forall. intros a Ha. apply filter_In in Ha. destruct Ha as [Hin _].
+  apply existsb_exists. exists a. split; [exact Hin | apply call_eqb_refl].
+Qed.
+
 Lemma sat1_err : forall k code aborts upto tx data g calls0 txs,
   filter is_abort calls0 = aborts -> prefixb data upto = true ->
   (match tx with Some t => txs = t | None => True end) ->
@@ -57,7 +63,7 @@ Lemma sat1_err : forall k code aborts upto tx data g calls0 txs,
        (AErr k code aborts upto tx) = true.
 Proof.
   intros k code aborts upto tx data g calls0 txs Hc Hp Ht. cbn [sat1 ob_out ob_data ob_calls ob_tx].
-  rewrite Hc, Hp, optN_eqb_refl, (list_eqb_refl _ _ call_eqb_refl).
+  rewrite <- Hc, calls_present, Hp, optN_eqb_refl.
   assert (Hk : errclass_eqb k k = true) by (destruct k; reflexivity). rewrite Hk.
   destruct tx as [t|]; [subst txs; rewrite (list_eqb_refl _ _ witem_eqb_refl)|]; reflexivity.
 Qed.
